@@ -130,6 +130,9 @@ def generate(run_seed):
                 kind = "simfault:" + rng.choice(SIM_FAULTS)
         scen["nodes"][n] = {"kind": kind, "scheme": scheme,
                             "includes": graph.get(n) if isinstance(graph.get(n), list) else []}
+        if kind == "ok" and rng.random() < 0.12:
+            # a resource in another encoding than UTF-8, correctly declared: parses fine directly
+            scen["nodes"][n]["enc"] = rng.choice(["ISO-8859-1", "UTF-16"])
         scen["cache"][n] = rng.choice(CACHE_STATES)
     # script: half of the runs follow a racy template (a deferred load of a root, then calls on
     # the root and on the resources it includes while the loaders are in flight)
@@ -205,7 +208,7 @@ class UrlShim(object):
                 w.failed_fetch.add(url)
                 return SimResponse(b"", fail_read=True)
             if kind == "simfault:nonutf8":
-                w.failed_fetch.add(url)
+                # fetched fine; the body is no XML in any encoding (an unparsable resource)
                 return SimResponse(b"\xff\xfe\xfa not utf-8")
             if kind == "simfault:notxml":
                 return SimResponse(b"plain text, fetched fine but not xml\n")
@@ -242,7 +245,13 @@ class World(object):
         node = self.case["scenario"]["nodes"][name]
         if node["kind"].startswith("bad:"):
             return bad_bytes(node["kind"][4:])
-        return file_text(name, node["includes"], self.urls, variant).encode("utf-8")
+        text = file_text(name, node["includes"], self.urls, variant)
+        enc = node.get("enc")
+        if enc:
+            text = text.replace('encoding="UTF-8"', 'encoding="%s"' % enc).replace(
+                "<odML version=\"1.1\">", "<odML version=\"1.1\">\n  <author>Jos\u00e9 N\u00fa\u00f1ez</author>")
+            return text.encode(enc)
+        return text.encode("utf-8")
 
     def cache_path(self, name):
         import tempfile
@@ -617,18 +626,17 @@ class Model(object):
             gone = "source-missing" in state
             if node["scheme"] == "file":
                 present = (kind == "ok" or kind.startswith("bad:")) and not gone
-                if not present or kind == "bad:nonutf8":       # undecodable body: the fetch fails
+                if not present:
                     self.src[n] = None
                 elif kind == "ok":
                     self.src[n] = ("ok", "-new" if state == "warm+source-changed" else "")
                 else:
                     self.src[n] = (kind[4:],)                    # text / version1 / empty
             else:
-                if gone or kind in ("missing", "simfault:urlerror", "simfault:read-raises",
-                                    "simfault:nonutf8"):
+                if gone or kind in ("missing", "simfault:urlerror", "simfault:read-raises"):
                     self.src[n] = None
-                elif kind == "simfault:notxml":
-                    self.src[n] = ("notxml",)
+                elif kind in ("simfault:notxml", "simfault:nonutf8"):
+                    self.src[n] = (kind[9:],)          # fetched, cached, does not parse
                 else:
                     self.src[n] = ("ok", "")
             if state != "empty" and kind == "ok":
